@@ -1225,6 +1225,11 @@ class Interp:
         if sym in ("==", "!="):
             r = self.generic_eq(a, b, node)
             return r if sym == "==" else not r
+        if isinstance(a, (SetObj, FrozenV)) and isinstance(b, (SetObj, FrozenV)) and sym in ("<", "<=", ">", ">="):
+            # sets compare by inclusion
+            inc = lambda xs, ys: all(any(self.generic_eq(x, y, node) for y in ys) for x in xs)
+            a_in_b, b_in_a = inc(a.items, b.items), inc(b.items, a.items)
+            return {"<=": a_in_b, "<": a_in_b and not b_in_a, ">=": b_in_a, ">": b_in_a and not a_in_b}[sym]
         if type(a) is type(b) and isinstance(a, (ListObj, TupleV)) and not getattr(a, "has_prefix", False) and not getattr(b, "has_prefix", False):
             # sequences compare lexicographically: the first differing pair of elements decides, then the lengths
             eq_op, strict = ast.Eq(), (ast.Lt() if sym in ("<", "<=") else ast.Gt())
@@ -1739,6 +1744,18 @@ class Interp:
                     return args[2]
                 raise AbstractRaise("AttributeError", node, detail="self.%s is read before anything sets it" % attr)
             raise Unsupported(node, "getattr(self, %r)" % attr)
+        if name in ("getattr", "hasattr") and len(args) in (2, 3) and isinstance(args[1], Const) and isinstance(args[1].v, str) \
+                and not kwargs and isinstance(args[0], (Const, DictObj, ListObj, TupleV, SetObj)):
+            # plain data (None, a number, a dict, a list ...) has none of the attributes a graph has
+            attr = args[1].v
+            pytype = type(args[0].v) if isinstance(args[0], Const) else {DictObj: dict, ListObj: list, TupleV: tuple, SetObj: set}[type(args[0])]
+            if hasattr(pytype, attr):
+                raise Unsupported(node, "%s(%r, %r)" % (name, args[0], attr))
+            if name == "hasattr":
+                return FALSE
+            if len(args) == 3:
+                return args[2]
+            raise AbstractRaise("AttributeError", node, detail="%s object has no attribute %s" % (pytype.__name__, attr))
         if name == "isinstance" and len(args) == 2:
             tn = self.type_of(args[0], node).name
             types = args[1].items if isinstance(args[1], TupleV) else [args[1]]
